@@ -373,7 +373,19 @@ func genZone(rng *mrand.Rand, in input) *dohfake.Zone {
 			}
 		}
 		for k := 0; k+1 < len(chain); k++ {
-			setHTTPS(z, chain[k], dohfake.Svc(chain[k], dohfake.HTTPS{Target: chain[k+1]}, ttl(rng)))
+			alias := dohfake.Svc(chain[k], dohfake.HTTPS{Target: chain[k+1]}, ttl(rng))
+			// RFC 9460 section 2.4.1: an RRSet that holds an AliasMode record is an alias, whatever else it holds and
+			// in whatever order the answer lists the records
+			switch rng.IntN(8) {
+			case 0:
+				setHTTPS(z, chain[k], dohfake.Svc(chain[k], genService(rng, chain[k], names), ttl(rng)), alias)
+			case 1:
+				setHTTPS(z, chain[k], alias, dohfake.Svc(chain[k], genService(rng, chain[k], names), ttl(rng)))
+			case 2:
+				setHTTPS(z, chain[k], dohfake.Svc(chain[k], genService(rng, chain[k], names), ttl(rng)), alias, dohfake.Svc(chain[k], genService(rng, chain[k], names), ttl(rng)))
+			default:
+				setHTTPS(z, chain[k], alias)
+			}
 		}
 		end := chain[len(chain)-1]
 		switch p := rng.IntN(100); {
@@ -509,6 +521,7 @@ type expectation struct {
 	Chain   []string // names whose HTTPS RRSet is consulted, in order; Chain[0] = SVCB query name
 	Loop    bool
 	EndKind string // service | none | alias-dot | rcode | loop
+	Mixed   bool   // an RRSet on the chain held service-mode records next to its alias
 	svc     []*dohfake.HTTPS
 }
 
@@ -523,14 +536,18 @@ func walk(z *dohfake.Zone, start string) expectation {
 			e.EndKind = "rcode"
 		case rc == dohfake.NXDomain || len(recs) == 0:
 			e.EndKind = "none"
-		case recs[0].Priority == 0 && isRoot(recs[0].Target):
+		case aliasOf(recs) != nil && isRoot(aliasOf(recs).Target):
 			e.EndKind = "alias-dot"
-		case recs[0].Priority == 0:
-			if seen[recs[0].Target] {
+		case aliasOf(recs) != nil:
+			a := aliasOf(recs)
+			if len(recs) > 1 {
+				e.Mixed = true
+			}
+			if seen[a.Target] {
 				e.Loop, e.EndKind = true, "loop"
 				return e
 			}
-			cur = recs[0].Target
+			cur = a.Target
 			seen[cur] = true
 			e.Chain = append(e.Chain, cur)
 			continue
@@ -539,6 +556,16 @@ func walk(z *dohfake.Zone, start string) expectation {
 		}
 		return e
 	}
+}
+
+// aliasOf returns the AliasMode record of an RRSet, if it has one (at any position).
+func aliasOf(recs []*dohfake.HTTPS) *dohfake.HTTPS {
+	for _, h := range recs {
+		if h.Priority == 0 {
+			return h
+		}
+	}
+	return nil
 }
 
 func ipKey(ips []netip.Addr) string {
@@ -618,7 +645,7 @@ func TestCheck(t *testing.T) {
 		"distinct = distinct (input class, form, port class, scheme class, alias hops, chain end kind, rcodes served, poisoned) classes that reached Resolve")
 	r.Assume("internal/dohfake: responses built with x/net dnsmessage.Builder and an own RFC 9460 RDATA encoder, queries judged by a literal label walk and dnsmessage.Parser",
 		"the universe (Zone.Lookup) answers like a recursive resolver: CNAME RRs first, then the RRSet at the end of the chain",
-		"RRSets are either one alias-mode record or service-mode records only (mixed sets, on which the statement is silent, are not generated)",
+		"an RRSet that holds an alias-mode record is read as an alias wherever the record stands in the answer (RFC 9460 section 2.4.1: the service-mode records of such a set are ignored)",
 		"address order inside an RRSet is not judged; ties in priority may come in any order",
 		"port 0 is treated as 'no port given'; an rcode other than NXDOMAIN on an HTTPS lookup may be reported as an error or ignored, errors on lookups of service targets may be ignored",
 		"'together with their targets' addresses' is read as: every address the resolver was actually given for the target of a returned record - an A (AAAA) query for that target which the server log shows answered NOERROR must have its addresses in Additional[target] even when the AAAA (A) query for the same target failed; a family whose own query failed or was never sent is not demanded, and nothing the zone does not give may appear")
@@ -752,8 +779,8 @@ func TestCheck(t *testing.T) {
 				allowed[k] = true
 			}
 		}
-		if recs, _ := httpsAt(z, exp.Chain[len(exp.Chain)-1]); len(recs) > 0 && recs[0].Priority == 0 {
-			allowed[recs[0].Target] = true // loop-closing target (already on the chain)
+		if recs, _ := httpsAt(z, exp.Chain[len(exp.Chain)-1]); aliasOf(recs) != nil {
+			allowed[aliasOf(recs).Target] = true // loop-closing target (already on the chain)
 		}
 		for _, h := range exp.svc {
 			if !isRoot(h.Target) {
